@@ -36,13 +36,10 @@ pub fn pin_current(cpu_id_idx: usize) -> bool {
         return false;
     }
 
+    // An out-of-range index is reported through the return value in every build profile:
+    // this runs inside the thread pool's start handler, where a panic aborts the process
+    // (e.g. when the affinity mask allows fewer CPUs than the pool has threads).
     if num_available <= cpu_id_idx {
-        if cfg!(debug_assertions) {
-            panic!(
-                "Cannot pin to CPU that does not exist {num_available} available CPUs, \
-                {cpu_id_idx} provided index"
-            );
-        }
         return false;
     }
 
